@@ -121,8 +121,9 @@ static void battery(State& S) {
   S.sm.verify_all("after heal");
 }
 
+static int g_healed_early = 0;
 static void faults_print(FILE* f) {
-  fprintf(f, ",\"faults\":{\"battery_runs\":%llu,\"fired\":%llu,\"giveback_checked\":%llu}", (unsigned long long)g_battery_runs, (unsigned long long)g_fault_fired, (unsigned long long)g_giveback_checked);
+  fprintf(f, ",\"faults\":{\"battery_runs\":%llu,\"fired\":%llu,\"giveback_checked\":%llu,\"healed_early\":%d}", (unsigned long long)g_battery_runs, (unsigned long long)g_fault_fired, (unsigned long long)g_giveback_checked, g_healed_early);
 }
 
 static void run_faults(State& S) {
@@ -135,7 +136,14 @@ static void run_faults(State& S) {
   vf_crash_refutes = "C07";
   parse_faults(S);
   history_begin(S);
-  for (S.op_index = 0; S.op_index < S.cfg.ops; S.op_index++) history_step(S);
+  // (a persistent refusal lasts until the heal point: the end of the history, or earlier when the process has mapped more than 4 GiB beyond its starting point --
+  //  under a persistent mprotect refusal the secure build cannot re-open the guard pages of segments it frees and keeps those segments, by design of the repair of
+  //  finding F12, so memory grows with every segment freed; 16 such cases in parallel must not exhaust the machine and get killed)
+  const size_t mapped0 = vf_os_mapped_bytes();
+  for (S.op_index = 0; S.op_index < S.cfg.ops; S.op_index++) {
+    history_step(S);
+    if ((S.op_index & 15) == 15 && !g_healed_early && vf_os_mapped_bytes() > mapped0 + ((size_t)4 << 30)) { vf_os_heal(); g_healed_early = 1; }
+  }
   vf_cur_what = "verification at the heal point";
   S.sm.verify_all("under injected OS refusals");
   vf_os_counts_t c; vf_os_get_counts(&c);
